@@ -82,7 +82,7 @@ def cell_job(job):
             rslmod.make_element(dict(cell, x=0.3), xgrid=decoy)[1].get_result()
         except Exception:
             pass
-    xg = cards.make_grid(4, 4, x_min=1e-2)
+    xg = cards.make_grid(4, 4, x_min=cell.get("xmin", 1e-2))
     for x in xs:
         c = dict(cell, x=x)
         try:
@@ -168,7 +168,13 @@ def run(ctx):
     evol = [dict(c, ptoEvol=0, hist="evol0") for c in cells if c["fns"] == "ZM-VFNS" and c["kind"] in ("F2", "FL") and c["proc"] == "NC"][:2 if q else 4]
     evol += [dict(c, ptoEvol=1, hist="evol1") for c in cells if c["fns"] == "FFNS" and c["kind"] == "F2" and c["proc"] == "NC" and c["pto"] >= 2][:1 if q else 3]
     cells = cells + evol
-    res = ctx.pmap(cell_job, [(c, xs) for c in cells], chunksize=1)
+    jobs = [(c, xs) for c in cells]
+    # very small x, a hair above the first nodes of a grid reaching 1e-7 (an absolute tolerance of 1e-8 is 10 % of x there)
+    xg7 = cards.make_grid(4, 4, x_min=1e-7)
+    tiny = [dict(c, pto=min(c["pto"], 2), ptoEvol=min(c["ptoEvol"], 2), xmin=1e-7, hist="tinyx") for c in cells
+            if c["fns"] == "ZM-VFNS" and c["kind"] in ("F2", "F3") and c.get("hist", "") == ""][:2 if q else 6]
+    jobs += [(c, (xg7[0] * 1.05, xg7[1] * (1 + 2e-3))) for c in tiny]
+    res = ctx.pmap(cell_job, jobs, chunksize=1)
     # history in FRESH processes: the very first grid a process sees is coarser / finer than the one under test
     hist = [c for c in cells if c["fns"] == "ZM-VFNS" and c["kind"] in ("F2", "F3") and c["nf"] == 3][:2 if q else 4]
     res += ctx.pmap(cell_job, [(dict(c, pto=min(c["pto"], 2), ptoEvol=min(c["ptoEvol"], 2), hist=h), xs, h) for c in hist for h in ("high_first", "low_first")],
